@@ -3,6 +3,7 @@
 package main
 
 import (
+	"bytes"
 	"crypto/sha256"
 	"encoding/binary"
 	"encoding/hex"
@@ -418,6 +419,7 @@ func exec(line string) string {
 	}
 	objs := []any{first}
 	cur := 0
+	var readBuf []byte
 	src := o.Hex("src")
 	var outs []string
 	for i, t := range o.List("ops") {
@@ -432,29 +434,57 @@ func exec(line string) string {
 			if k > len(src) {
 				return "bad-op"
 			}
-			p := src[:k]
+			p := append([]byte(nil), src[:k]...) // caller-owned buffer: not modified, not retained
+			orig := src[:k]
 			src = src[k:]
 			res = hx.Catch(func() string {
 				n, err := obj.(io.Writer).Write(p)
 				if n != k || err != nil {
 					return "err"
 				}
+				if !bytes.Equal(p, orig) {
+					return "input-modified"
+				}
 				return ""
 			})
+			for j := range p {
+				p[j] ^= 0x5a
+			}
 		case 's':
-			res = hx.Catch(func() string { return hx.Hex(obj.(hash.Hash).Sum(pre(k))) })
+			res = hx.Catch(func() string {
+				b := pre(k)
+				out := obj.(hash.Hash).Sum(b)
+				for j := 0; j < k; j++ { // Sum(b) appends; b[:len(b)] untouched
+					if b[j] != byte(0xa0+j) {
+						return "input-modified"
+					}
+				}
+				h := hx.Hex(out)
+				for j := range out {
+					out[j] = 0xee
+				}
+				return h
+			})
 		case 'r':
 			rd, ok := obj.(io.Reader)
 			if !ok || strings.HasPrefix(fn, "sha3-") {
 				return "bad-op"
 			}
 			res = hx.Catch(func() string {
-				out := make([]byte, k)
+				// one Read buffer reused for all Reads of the history and overwritten after copy-out
+				if cap(readBuf) < k {
+					readBuf = make([]byte, k)
+				}
+				out := readBuf[:k]
 				n, err := rd.Read(out)
 				if n != k || err != nil {
 					return "err"
 				}
-				return hx.Hex(out)
+				h := hx.Hex(out)
+				for j := range out {
+					out[j] = byte(0x33 + i)
+				}
+				return h
 			})
 		case 'c':
 			switch v := obj.(type) {
